@@ -77,8 +77,8 @@ def expect_cat(op, su, sv, ra, rb, n=None):
     return {"kind": "typed", "t": t, "ref": val}
 
 
-def judge(ctx, tag, what, fn, exp, scale_of, quantum_of, cls_of, tuple_ok=False):
-    """Run fn() and compare with the expectation."""
+def judge(ctx, tag, what, fn, exp, scale_of, quantum_of, cls_of, tuple_ok=False, mode="ROUND_HALF_EVEN"):
+    """Run fn() and compare with the expectation (mode: the active default rounding mode)."""
     try:
         res = fn()
     except UndefinedResultError as exc:
@@ -111,7 +111,7 @@ def judge(ctx, tag, what, fn, exp, scale_of, quantum_of, cls_of, tuple_ok=False)
         if ru is None:
             ctx.viol(f"{tag}/uu_nounit", f"{what} = {res!r}, expected a unit of {exp['t']}")
             return
-        _typed_value(ctx, tag, what, F(fac), ru, exp, scale_of, quantum_of, cls_of, rounded=False)
+        _typed_value(ctx, tag, what, F(fac), ru, exp, scale_of, quantum_of, cls_of, rounded=False, mode=mode)
         return
     if exp["kind"] == "number":
         if isinstance(res, (Quantity, tuple)) or isinstance(res, float):
@@ -132,10 +132,11 @@ def judge(ctx, tag, what, fn, exp, scale_of, quantum_of, cls_of, tuple_ok=False)
         ctx.viol(f"{tag}/float", f"{what} holds a float amount")
         return
     _typed_value(ctx, tag, what, F(res.amount), res.unit, exp, scale_of, quantum_of, cls_of, rounded=True,
-                 res=res)
+                 res=res, mode=mode)
 
 
-def _typed_value(ctx, tag, what, amount, ru, exp, scale_of, quantum_of, cls_of, rounded, res=None):
+def _typed_value(ctx, tag, what, amount, ru, exp, scale_of, quantum_of, cls_of, rounded, res=None,
+                 mode="ROUND_HALF_EVEN"):
     cls = cls_of(exp["t"])
     if ru.qty_cls is not cls or (res is not None and type(res) is not cls):
         ctx.viol(f"{tag}/wrong_type", f"{what} is a {ru.qty_cls.__name__} ({res!r}), expected {cls.__name__}")
@@ -153,9 +154,12 @@ def _typed_value(ctx, tag, what, amount, ru, exp, scale_of, quantum_of, cls_of, 
     want = exp["ref"] / s
     q = quantum_of(ru)
     if q is not None and rounded:
-        want = round_to(want, q, "ROUND_HALF_EVEN")
+        if (want / q).denominator != 1:
+            ctx.label("quantized_result_offgrid")
+        want = round_to(want, q, mode)
     if amount != want:
-        ctx.viol(f"{tag}/value", f"{what} = {fs(amount)} {ru}; exact value in {ru} is {fs(want)}")
+        ctx.viol(f"{tag}/value", f"{what} = {fs(amount)} {ru}; exact value in {ru} is {fs(want)}"
+                 + (f" [{mode}]" if mode != "ROUND_HALF_EVEN" else ""))
 
 
 def describe(exp):
@@ -288,7 +292,9 @@ def run_case(case, ctx):
         qb = Quantity(mknum(case["b"]), V)
         rb = _refval(sv, qb)
         same_noref = is_temp(su) and is_temp(sv) and su != sv
-        for op in case.get("ops", ["*", "/"]):
+        # every operator twice, interleaved: a result must not depend on what was evaluated before
+        base_ops = case.get("ops", ["*", "/"])
+        for op in base_ops + base_ops:
             if op == "/" and same_noref:
                 ctx.label("excluded/noref_div")
                 continue
